@@ -199,7 +199,11 @@ func ext4Fields(d *simdisk.Disk, start int64) []c18Field {
 	if isz < 128 || isz > 1024 {
 		isz = 256
 	}
-	for _, ino := range []int64{2, 11, 12, 13, 14, 15, 16, 17, 18} {
+	inos := []int64{2}
+	for ino := int64(11); ino <= 24; ino++ {
+		inos = append(inos, ino)
+	}
+	for _, ino := range inos {
 		base := it + (ino-1)*isz
 		b := d.Peek(base, 128)
 		if u16(b[0:2]) == 0 {
@@ -212,6 +216,37 @@ func ext4Fields(d *simdisk.Disk, start int64) []c18Field {
 			w int
 		}{{"mode", 0, 2}, {"sizeLo", 4, 4}, {"links", 26, 2}, {"blocksLo", 28, 4}, {"flags", 32, 4}, {"eh.magic", 40, 2}, {"eh.entries", 42, 2}, {"eh.max", 44, 2}, {"eh.depth", 46, 2}, {"ee0.block", 52, 4}, {"ee0.len", 56, 2}, {"ee0.startHi", 58, 2}, {"ee0.startLo", 60, 4}, {"ee1.block", 64, 4}, {"ee1.len", 68, 2}, {"ee1.startLo", 72, 4}, {"sizeHi", 108, 4}, {"checksumLo", 124, 2}} {
 			add(p+x.n, base+x.o, x.w)
+		}
+		// extent tree below the inode: the first leaf block (header and first two entries)
+		if u16(b[40:42]) == 0xF30A && u16(b[46:48]) == 1 && u16(b[42:44]) >= 1 {
+			leaf := start + (u32(b[56:60])+u16(b[60:62])<<32)*bs
+			if lb := d.Peek(leaf, 12); u16(lb[0:2]) == 0xF30A {
+				for _, x := range []struct {
+					n string
+					o int64
+					w int
+				}{{"ei0.block", 52 - 40 + 40, 4}, {"ei0.leafLo", 56, 4}, {"ei0.leafHi", 60, 2}} {
+					add(p+x.n, base+x.o, x.w)
+				}
+				for _, x := range []struct {
+					n string
+					o int64
+					w int
+				}{{"leaf.magic", 0, 2}, {"leaf.entries", 2, 2}, {"leaf.max", 4, 2}, {"leaf.depth", 6, 2}, {"leaf.ee0.block", 12, 4}, {"leaf.ee0.len", 16, 2}, {"leaf.ee0.startHi", 18, 2}, {"leaf.ee0.startLo", 20, 4}, {"leaf.ee1.block", 24, 4}, {"leaf.ee1.len", 28, 2}, {"leaf.ee1.startLo", 32, 4}} {
+					add(p+x.n, leaf+x.o, x.w)
+				}
+			}
+		}
+		// hash-indexed directory: dx_root of the first block, first two index entries, and the first leaf block's entries
+		if u16(b[0:2])&0xF000 == 0x4000 && u32(b[32:36])&0x1000 != 0 && u16(b[40:42]) == 0xF30A && u16(b[46:48]) == 0 {
+			blk := start + u32(b[60:64])*bs
+			for _, x := range []struct {
+				n string
+				o int64
+				w int
+			}{{"dx.dot.recLen", 4, 2}, {"dx.dotdot.recLen", 16, 2}, {"dx.hashVersion", 28, 1}, {"dx.infoLength", 29, 1}, {"dx.indirectLevels", 30, 1}, {"dx.limit", 32, 2}, {"dx.count", 34, 2}, {"dx.block0", 36, 4}, {"dx.hash1", 40, 4}, {"dx.block1", 44, 4}} {
+				add(p+x.n, blk+x.o, x.w)
+			}
 		}
 		// directory entries of directory inodes: first block
 		if u16(b[0:2])&0xF000 == 0x4000 && u16(b[40:42]) == 0xF30A && u16(b[46:48]) == 0 {
@@ -484,6 +519,9 @@ func (p c18) Exec(t *core.Trace) *core.Result {
 	}
 	tree := c18Tree(uint64(t.I("tag")))
 	opt := map[string]int64{"bs": t.I("bs"), "sqcomp": t.I("sqcomp"), "log": 1}
+	if kind == "ext4-mke2fs" {
+		opt["rich"] = 1 // extent leaf block and hash-indexed directory, which only the reference tools produce
+	}
 	switch {
 	case strings.HasPrefix(kind, "fat12"):
 		opt["size"] = 2 << 20
